@@ -137,7 +137,7 @@ func genFault(t *rapid.T) Scenario {
 	}
 	drawExtras(t, &s)
 	drawFatal(t, &s, true)
-	drawLateHandover(t, &s)
+	drawReaderBusy(t, &s)
 	return s
 }
 
@@ -274,23 +274,39 @@ func (r *run) fatalServeTag() string {
 }
 
 // ---------------------------------------------------------------------------------------------
-// Round 10, remark: a Reader that is still busy with a request when ShutdownContext gives up.
+// Round 10: a Reader that is still busy with a request it has read when Shutdown is called.
 //
-// drawLateHandover (drawn last; about one case in ten of those without a fatal fault, every transport) makes
-// the schedule  request read -> Shutdown called with a context that has expired (or expires at the
-// call) -> Shutdown returns the context's error -> the Reader returns the request to the serve loop.
-// The Reader is the scenario's DecorateReader wrapper: it is held at its interposition point
-// reader.return(...), after the library's own reader has returned, until shutdown.return is logged.
-// Oracle (invariants, I3 for a Shutdown that gave up): the request must not get a handler.
-func drawLateHandover(t *rapid.T, s *Scenario) {
+// The window "request read, not yet with the serve loop" is one of the interleavings the statement
+// names ({request read, handler enter, Shutdown}); with the library's own reader it is a few
+// instructions wide, with a DecorateReader that does anything after the inner read it is as wide as
+// that work. The scenario's Reader wrapper has an interposition point there (reader.return(...),
+// after the library's reader has returned); drawReaderBusy (drawn last, cases without a fatal
+// fault, every transport) calls Shutdown at that point and holds the Reader
+//
+//   - "served" (about one case in eight): until Shutdown has done its locked part (the past read
+//     deadline is set on the connection / the PacketConn; "release" where that cannot be observed).
+//     The request then reaches its handler while Shutdown is waiting: I1, I2 as for every handler.
+//     (Seeded change C13-S of this round lives in exactly this window; it used to be met by chance only.)
+//   - "gave-up" (about one case in ten; the remark of round 10): Shutdown is called with a context that
+//     has expired or expires at the call, and the Reader is held until shutdown.return is logged.
+//     Oracle (invariants, I3 for a Shutdown that gave up): the request must not get a handler. This
+//     is the class of known finding handler-started-after-shutdown-gave-up: not drawn while it is live.
+func drawReaderBusy(t *rapid.T, s *Scenario) {
 	if s.fatal() || s.drain() || s.shutting() {
 		return
 	}
-	if rapid.IntRange(0, 15).Draw(t, "lateHandoverOn") != 0 {
-		return
+	mode := ""
+	if rapid.IntRange(0, 15).Draw(t, "lateHandoverOn") == 0 {
+		mode = "gave-up"
+		if pbt.Known(knownLateHandover) {
+			pbt.Excluded(knownLateHandover)
+			mode = ""
+		}
 	}
-	if pbt.Known(knownLateHandover) {
-		pbt.Excluded(knownLateHandover)
+	if mode == "" && rapid.IntRange(0, 11).Draw(t, "readerBusyOn") == 0 {
+		mode = "served"
+	}
+	if mode == "" {
 		return
 	}
 	if len(s.Clients) == 0 {
@@ -309,18 +325,39 @@ func drawLateHandover(t *rapid.T, s *Scenario) {
 	if s.FallbackMs < 150 {
 		s.FallbackMs = 150
 	}
-	s.Ctx, s.CtxAPI = "expired", false
-	if rapid.Bool().Draw(t, "lateHandoverCtxAtCall") {
-		s.Ctx, s.CtxAt = "expireAt", "shutdown.call"
+	hold := memnet.Wait{At: at, Once: true}
+	if mode == "gave-up" {
+		s.Ctx, s.CtxAPI = "expired", false
+		if rapid.Bool().Draw(t, "lateHandoverCtxAtCall") {
+			s.Ctx, s.CtxAt = "expireAt", "shutdown.call"
+		}
+		dropMisuse(s, "secondShutdown") // the call that gives up is the effective one
+		hold.For, hold.TimeoutMs = "shutdown.return(*)", 300
+	} else {
+		if rapid.IntRange(0, 3).Draw(t, "readerBusyCtx") > 0 { // a Shutdown that waits
+			s.Ctx, s.CtxAt = "background", ""
+			s.CtxAPI = rapid.Bool().Draw(t, "readerBusyCtxAPI")
+		}
+		switch {
+		case s.lns() || !s.spied():
+			hold.For = "release"
+			if s.HoldMs < 2 {
+				s.HoldMs = 2
+			}
+		case s.stream():
+			hold.For = "conn(1).setReadDeadline(past)"
+		default:
+			hold.For = "pc.setReadDeadline(past)"
+		}
+		hold.TimeoutMs = 150
 	}
-	dropMisuse(s, "secondShutdown") // the call that gives up is the effective one
 	var ws []memnet.Wait
 	for _, w := range s.Waits {
 		if afterShutdown(w.At) || !afterShutdown(w.For) {
 			ws = append(ws, w)
 		}
 	}
-	s.Waits = append(ws, memnet.Wait{At: at, For: "shutdown.return(*)", Once: true, TimeoutMs: 300})
+	s.Waits = append(ws, hold)
 	if s.hasRestart() && s.Restart.When != "complete" {
 		s.Restart.When, s.Restart.Release1 = "complete", ""
 	}
